@@ -131,6 +131,79 @@ def next_callee(crate, iter_ty):
             'res_kind': 'AssocFn', 'func': None, 'arg_tys': ['&mut ' + iter_ty]}
 
 
+OPTION_COMBINATORS = ('map', 'is_some_and', 'is_none_or', 'and_then', 'map_or', 'unwrap_or_else', 'unwrap_or', 'filter')
+_OPT_RE = re.compile(r'^std::option::Option::<T>::(%s)$' % '|'.join(OPTION_COMBINATORS))
+
+
+def lower_option(fn, crate, bi, comb):
+    """Option combinators become the `match` they abbreviate (closures entered as frames)"""
+    blk = fn.blocks[bi]
+    t = blk['term']
+    c, args, dest, target, line, exp = t[1], t[2], t[3], t[4], t[5], t[6]
+    tys = c.get('arg_tys') or []
+    if len(tys) != len(args) or not tys or split_generics(tys[0])[0] != 'std::option::Option':
+        return False
+    oty = tys[0]
+    xty = (split_generics(oty)[1] or ['?'])[0]
+    B = Builder(fn, line, exp)
+    O = B.local(oty, '#opt')
+    D = B.local('isize', None)
+    X = B.local(xty, '#x')
+    pre = [B.assign(P(O, oty), ['use', args[0]])]
+    extra = []
+    for k, a in enumerate(args[1:]):
+        L = B.local(tys[k + 1], '#f' if k == len(args) - 2 else '#d')
+        pre.append(B.assign(P(L, tys[k + 1]), ['use', a]))
+        extra.append((L, tys[k + 1]))
+    SOME, NONE, UN = B.block(), B.block(), B.block()
+    fn.blocks[UN]['term'] = ['unreachable']
+    blk['stmts'] = blk['stmts'] + pre + [B.assign(P(D, 'isize'), ['discr', P(O, oty)])]
+    blk['term'] = ['switch', ['move', P(D, 'isize')], [[0, NONE], [1, SOME]], UN, 'isize', line, exp]
+    some, none_ = fn.blocks[SOME], fn.blocks[NONE]
+    some['stmts'] = [B.assign(P(X, xty), ['use', ['move', P(O, xty, [['downcast', 'Some', 1], ['field', 0, '0', 'std::option::Option', xty]])]])]
+    some['term'] = none_['term'] = ['goto', target]
+    F = extra[-1] if extra else None
+
+    def fcall(blk_, fargs, dst, tgt):
+        blk_['term'] = B.closure_call(['move', P(F[0], F[1])], fargs, dst, tgt)
+    if comb == 'map':
+        rty = (split_generics(dest['ty'])[1] or ['?'])[0]
+        Y = B.local(rty, None)
+        S2 = B.block()
+        fcall(some, [['move', P(X, xty)]], P(Y, rty), S2)
+        fn.blocks[S2]['stmts'] = [B.assign(dest, agg_opt('Some', [['move', P(Y, rty)]]))]
+        fn.blocks[S2]['term'] = ['goto', target]
+        none_['stmts'] = [B.assign(dest, agg_opt('None', []))]
+    elif comb in ('is_some_and', 'is_none_or'):
+        fcall(some, [['move', P(X, xty)]], dest, target)
+        none_['stmts'] = [B.assign(dest, ['use', cbool(comb == 'is_none_or')])]
+    elif comb == 'and_then':
+        fcall(some, [['move', P(X, xty)]], dest, target)
+        none_['stmts'] = [B.assign(dest, agg_opt('None', []))]
+    elif comb == 'map_or':
+        fcall(some, [['move', P(X, xty)]], dest, target)
+        none_['stmts'] = [B.assign(dest, ['use', ['move', P(extra[0][0], extra[0][1])]])]
+    elif comb == 'unwrap_or_else':
+        some['stmts'].append(B.assign(dest, ['use', ['move', P(X, xty)]]))
+        fcall(none_, [], dest, target)
+    elif comb == 'unwrap_or':
+        some['stmts'].append(B.assign(dest, ['use', ['move', P(X, xty)]]))
+        none_['stmts'] = [B.assign(dest, ['use', ['move', P(extra[0][0], extra[0][1])]])]
+    elif comb == 'filter':
+        XR = B.local('&' + xty, None)
+        Cc = B.local('bool', None)
+        S2, KEEP, DROP = B.block(), B.block(), B.block()
+        some['stmts'].append(B.assign(P(XR, '&' + xty), ['ref', False, P(X, xty)]))
+        fcall(some, [['move', P(XR, '&' + xty)]], P(Cc, 'bool'), S2)
+        fn.blocks[S2]['term'] = ['switch', ['move', P(Cc, 'bool')], [[0, DROP]], KEEP, 'bool', line, exp]
+        fn.blocks[KEEP]['stmts'] = [B.assign(dest, agg_opt('Some', [['move', P(X, xty)]]))]
+        fn.blocks[KEEP]['term'] = ['goto', target]
+        fn.blocks[DROP]['stmts'] = [B.assign(dest, agg_opt('None', []))]
+        fn.blocks[DROP]['term'] = ['goto', target]
+        none_['stmts'] = [B.assign(dest, agg_opt('None', []))]
+    return True
+
+
 def lower_fn(fn, crate):
     n = 0
     for bi in range(len(fn.blocks)):
@@ -139,6 +212,11 @@ def lower_fn(fn, crate):
             continue
         c = t[1]
         name = c.get('resolved') or c.get('callee') or ''
+        mo = _OPT_RE.match(name)
+        if mo:
+            if lower_option(fn, crate, bi, mo.group(1)):
+                n += 1
+            continue
         m = _CONS_RE.match(name)
         if not m or c.get('local'):
             continue
@@ -223,31 +301,6 @@ def lower_call(fn, crate, bi, cons):
     fn.blocks[H2]['term'] = ['switch', ['move', P(DIS, 'isize')], [[0, DONE], [1, BODY]], UNREACH, 'isize', line, exp]
     fn.blocks[BODY]['stmts'] = [B.assign(P(X, item_ty), ['use', ['move', P(OPT, item_ty, [['downcast', 'Some', 1], ['field', 0, '0', 'std::option::Option', item_ty]])]])]
     cur = BODY
-    # adaptor closures, innermost first; the closures live in the iterator value (fns[k])
-    itref_ty = '&mut ' + inner_ty
-
-    def iter_operand():
-        r = B.local(itref_ty, None)
-        fn.blocks[cur]['stmts'].append(B.assign(P(r, itref_ty), ['ref', True, itplace]))
-        return ['move', P(r, itref_ty)]
-
-    for k, kind in enumerate(chain):
-        nxt = B.block()
-        if kind == 'map':
-            Y = B.local('?', '#x')
-            fn.blocks[cur]['term'] = B.closure_call(iter_operand(), [['move', P(X, item_ty)]], P(Y, '?'), nxt, from_iter=k)
-            X, item_ty = Y, '?'
-        elif kind in ('filter', 'take_while', 'inspect'):
-            XR = B.local('&' + item_ty, None)
-            fn.blocks[cur]['stmts'].append(B.assign(P(XR, '&' + item_ty), ['ref', False, P(X, item_ty)]))
-            Cc = B.local('bool' if kind != 'inspect' else '()', None)
-            mid = B.block() if kind != 'inspect' else nxt
-            fn.blocks[cur]['term'] = B.closure_call(iter_operand(), [['move', P(XR, '&' + item_ty)]], P(Cc, 'bool'), mid, from_iter=k)
-            if kind == 'filter':
-                fn.blocks[mid]['term'] = ['switch', ['move', P(Cc, 'bool')], [[0, H]], nxt, 'bool', line, exp]
-            elif kind == 'take_while':
-                fn.blocks[mid]['term'] = ['switch', ['move', P(Cc, 'bool')], [[0, DONE]], nxt, 'bool', line, exp]
-        cur = nxt
 
     def fop():
         # closures are called through a reference to the local that holds them (FnMut state persists)
@@ -329,3 +382,70 @@ def lower_crate(crate):
     for fn in crate.all_fns:
         total += lower_fn(fn, crate)
     return total
+
+
+# ---------------------------------------------------------------------------------------------------------------------
+# `next` of an iterator value that carries closure adaptors: a model function generated on demand (one per adaptor
+# sequence) and entered like any callee, so the closures run as frames with their effects and calls visible.
+
+_MODELS = {}
+
+
+def next_model(crate, kinds):
+    """model of  <Adaptors.. as Iterator>::next(&mut it)  for the closure adaptors `kinds` (innermost first)"""
+    from . import mir
+    key = (id(crate), tuple(kinds))
+    if key in _MODELS:
+        return _MODELS[key]
+    d = {'path': '#iter_next<%s>' % ','.join(kinds), 'kind': 'fn', 'def_kind': 'Fn', 'promoted': None, 'vis': 'Private', 'reachable': True,
+         'file': '<model>', 'lo': 0, 'hi': 0, 'parent': None, 'impl_of': None, 'arg_count': 1, 'ret_ty': 'std::option::Option<?>',
+         'locals': [{'ty': 'std::option::Option<?>', 'name': None, 'mut': True}, {'ty': '&mut ?iter', 'name': '#self', 'mut': False}],
+         'dbg': [], 'upvars': [], 'jumps': [], 'blocks': []}
+    fn = mir.Fn(d, crate)
+    B = Builder(fn, 0, True)
+    ity, rty = '?iter', '&mut ?iter'
+    itplace = P(1, ity, [['deref']])
+    H = B.block()
+    H2, BODY, NONE, RET, UN = B.block(), B.block(), B.block(), B.block(), B.block()
+    fn.blocks[UN]['term'] = ['unreachable']
+    fn.blocks[RET]['term'] = ['return']
+    REF = B.local(rty, None)
+    OPT = B.local('std::option::Option<?>', None)
+    DIS = B.local('isize', None)
+    X = B.local('?', '#x')
+    raw = {'callee': '#raw_next', 'resolved': '#raw_next', 'local': False, 'generics': [], 'res_kind': None, 'func': None, 'arg_tys': [rty]}
+    fn.blocks[H]['stmts'] = [B.assign(P(REF, rty), ['ref', True, itplace])]
+    fn.blocks[H]['term'] = B.call(raw, [['move', P(REF, rty)]], P(OPT, 'std::option::Option<?>'), H2)
+    fn.blocks[H2]['stmts'] = [B.assign(P(DIS, 'isize'), ['discr', P(OPT, 'std::option::Option<?>')])]
+    fn.blocks[H2]['term'] = ['switch', ['move', P(DIS, 'isize')], [[0, NONE], [1, BODY]], UN, 'isize', 0, True]
+    fn.blocks[BODY]['stmts'] = [B.assign(P(X, '?'), ['use', ['move', P(OPT, '?', [['downcast', 'Some', 1], ['field', 0, '0', 'std::option::Option', '?']])]])]
+    fn.blocks[NONE]['stmts'] = [B.assign(P(0, 'std::option::Option<?>'), agg_opt('None', []))]
+    fn.blocks[NONE]['term'] = ['goto', RET]
+    cur = BODY
+    for k, kind in enumerate(kinds):
+        nxt = B.block()
+        r = B.local(rty, None)
+        fn.blocks[cur]['stmts'].append(B.assign(P(r, rty), ['ref', True, itplace]))
+        itop = ['move', P(r, rty)]
+        if kind == 'map':
+            Y = B.local('?', '#x')
+            fn.blocks[cur]['term'] = B.closure_call(itop, [['move', P(X, '?')]], P(Y, '?'), nxt, from_iter=k)
+            X = Y
+        elif kind in ('filter', 'take_while', 'inspect'):
+            XR = B.local('&?', None)
+            fn.blocks[cur]['stmts'].append(B.assign(P(XR, '&?'), ['ref', False, P(X, '?')]))
+            Cc = B.local('bool' if kind != 'inspect' else '()', None)
+            mid = B.block() if kind != 'inspect' else nxt
+            fn.blocks[cur]['term'] = B.closure_call(itop, [['move', P(XR, '&?')]], P(Cc, 'bool'), mid, from_iter=k)
+            if kind == 'filter':
+                fn.blocks[mid]['term'] = ['switch', ['move', P(Cc, 'bool')], [[0, H]], nxt, 'bool', 0, True]
+            elif kind == 'take_while':
+                # (the real adaptor also remembers that it is finished; a consumer stops at the first None anyway)
+                fn.blocks[mid]['term'] = ['switch', ['move', P(Cc, 'bool')], [[0, NONE]], nxt, 'bool', 0, True]
+        else:
+            raise ValueError(kind)
+        cur = nxt
+    fn.blocks[cur]['stmts'].append(B.assign(P(0, 'std::option::Option<?>'), agg_opt('Some', [['move', P(X, '?')]])))
+    fn.blocks[cur]['term'] = ['goto', RET]
+    _MODELS[key] = fn
+    return fn
